@@ -187,8 +187,14 @@ def ack_processing_presence(cx, iid):
             if cycle_avoiding(b, Ls[0], {cs[0].bb}) is not None:
                 inst.violation(b.path, "acknowledge_group skipped", "an ack group can be skipped")
             e = show(b.call_expr(b.node_at(cs[0])))
-            if not re.fullmatch(r"FrameQueue::acknowledge_group\(arg1\.frame_queue,AckGroup::clone\(IntoIter::next\(var\d+\)@Some\.0\),SendRateComp::rtt_ms\(arg1\.send_rate_comp\)\)", e):
+            m = re.fullmatch(r"FrameQueue::acknowledge_group\(arg1\.frame_queue,(?:AckGroup::clone\()?(?:IntoIter|Iter)::next\(var(\d+)\)@Some\.0\)?,SendRateComp::rtt_ms\(arg1\.send_rate_comp\)\)", e)
+            if not m:
                 inst.violation(b.path, "acknowledge_group operands", "acknowledge_group is called as `%s`" % e[:140])
+            else:
+                # the iterator walks the frame's own ack groups
+                srcs = [show(b.rvalue_expr(n["rv"])) if k == "assign" else show(b.call_expr(n)) for l, k, n in b.defs.get(int(m.group(1)), [])]
+                if not srcs or not all(re.fullmatch(r"(?:(?:I::into_iter|Vec::into_iter|\[T\]::iter|Vec::iter|Box::into_iter)\()+arg2\.frame_acks\)+", x) for x in srcs):
+                    inst.violation(b.path, "acknowledge_group source", "the acknowledged groups are taken from %s, expected the frame's frame_acks" % srcs)
         cb = R.body("half_connection::HalfConnection::emit_data_frames::{closure#0}")
         nf = call_locs(cb, "SendRateComp::notify_frame_sent")
         inst.site(cb, None, "data callback -> notify_frame_sent: %d" % len(nf))
@@ -389,7 +395,8 @@ def half_connection_clock(cx, iid):
             "flush_id": r"u32::wrapping_add\((arg1\.flush_id,1|1,arg1\.flush_id)\)",
         }
         for fld, rx in want.items():
-            ws = [(l, show(b.rvalue_expr(n["rv"])) if n["k"] == "assign" else show(b.call_expr(n))) for l, n, ps in b.field_writes(r"arg1\." + fld)]
+            from rules import canon_value
+            ws = [(l, show(canon_value(cx, b, b.rvalue_expr(n["rv"]) if n["k"] == "assign" else b.call_expr(n)))) for l, n, ps in b.field_writes(r"arg1\." + fld)]
             for l, v in ws:
                 inst.site(b, l, "%s = %s" % (fld, v[:90]))
                 if not re.fullmatch(rx, v):
@@ -551,13 +558,18 @@ def resync_walk(cx, iid):
         n = int(var[3:])
         step_bbs = {loc.bb for loc, kind, node in b.defs.get(n, []) if loc.bb in L["body"]}
         tests = set()
+        pred_calls = set()  # the flag test spelled as a call of a pure helper: `!helper(self, id)` is the flag-clear fact
         for bb in L["body"]:
             t = b.term(bb)
             if t["k"] == "switch":
-                s = show(b.operand_expr(t["op"]))
+                from rules import inline_pure
+                raw = b.operand_expr(t["op"])
+                s = show(inline_pure(R, raw, keep=("packet_id::add", "packet_id::sub")))
                 if re.search(r"arg1\.entry_flags\[div\(cast<usize>\(bitand\((arg1\.receive_window_mask,%s|%s,arg1\.receive_window_mask)\)\),64\)\]" % (var, var), s):
                     tests.add(bb)
                     inst.site(b, Loc(bb, 0), "produced-flag test of the walked id")
+                    if raw[0] == "call" and show(raw) != s:
+                        pred_calls.add(show(raw))
         if not tests:
             inst.violation(b.path, "flag test", "the walk no longer tests entry_flags of the id it is at")
             return
@@ -583,7 +595,8 @@ def resync_walk(cx, iid):
             inst.violation(b.path, "advance target", "resynchronize advances the window with %s, expected the id the walk stopped at" % cs)
         fa = cx.fa(b)
         for sb in step_bbs:
-            g, bad = dnf_holds(fa.at(Loc(sb, 0)), [[r"eq\(0,bitand\(arg1\.entry_flags\[.*\],shl\(1,.*\)\)\)"]])
+            clear = [[r"eq\(0,bitand\(arg1\.entry_flags\[.*\],shl\(1,.*\)\)\)"]] + [["!" + re.escape(pc)] for pc in sorted(pred_calls)]
+            g, bad = dnf_holds(fa.at(Loc(sb, 0)), clear)
             if not g:
                 inst.violation(b.path, "step over a produced packet", "the walk steps past an id whose produced-flag is not known to be clear", at=b.span_at(Loc(sb, 0)))
 
@@ -610,3 +623,54 @@ def heap_order(cx, iid, which):
             if not okp:
                 inst.violation(pc.path, "partial_cmp", "%s::partial_cmp is `%s`: it disagrees with Ord::cmp / is not the reversed order of %s, and BinaryHeap orders through it" % (ty, pe, fld))
             # the queue really is a BinaryHeap of this type
+
+
+def resend_ref_in_own_frame(cx, iid):
+    """T2: a fragment is recorded in the resend list of the frame that actually carries it: in DataFrameEmitter::push
+    every `resend_refs.push` is preceded, with no finalize() in between, by the `fbuilder.add` of the same datagram.
+    A reference recorded before the frame is closed and the datagram moved to the next frame makes a genuine
+    acknowledgement of the first frame acknowledge a fragment it never carried (which is then never resent)."""
+    R = cx.R
+    with cx.instance(iid, "T2 PAIR (order)", "resend_refs.push follows fbuilder.add of the same frame on every path, with no finalize between them", floor=2) as inst:
+        b = R.body("DataFrameEmitter::push")
+        pushes = [(l, "resend_refs.push") for l, t in b.calls("Vec::push") if len(t["args"]) == 2 and show(b.operand_expr(t["args"][1])).startswith("FragmentRef::new(")]
+        adds = [l for l, t in b.calls("DataFrameBuilder::add")]
+        fins = [l for l, t in b.calls("DataFrameEmitter::finalize")]
+        if not pushes or not adds:
+            inst.violation(b.path, "anchors", "DataFrameEmitter::push: resend_refs.push / fbuilder.add not found (anchor)")
+            return
+        cx.preceded_by(inst, b, pushes, adds, "resend reference recorded for a datagram that was not added", "fbuilder.add(datagram)")
+        # no path add -> finalize -> push (or entry -> push -> finalize -> add): from a finalize, a push is reachable only through an add
+        for f in fins:
+            for pl, lab in pushes:
+                # search forward from f avoiding adds
+                seen = set()
+                st = [y for y, _ in b.succ[f.bb]]
+                bad = False
+                while st:
+                    x = st.pop()
+                    if x in seen:
+                        continue
+                    seen.add(x)
+                    if any(a.bb == x for a in adds):
+                        continue
+                    if x == pl.bb:
+                        bad = True
+                        break
+                    st.extend(y for y, _ in b.succ[x])
+                if bad:
+                    inst.violation(b.path, "resend reference in the wrong frame", "after a finalize() the resend reference can be recorded without the datagram having been added to the new frame", at=b.span_at(pl))
+        # and a push is never followed by a finalize + add of the same datagram
+        for pl, lab in pushes:
+            seen = set()
+            st = [y for y, _ in b.succ[pl.bb]]
+            hit_fin = False
+            while st:
+                x = st.pop()
+                if x in seen:
+                    continue
+                seen.add(x)
+                if any(a.bb == x for a in adds):
+                    inst.violation(b.path, "datagram added after its resend reference", "a resend reference is recorded before the datagram is (re-)added: it ends up in an earlier frame's list", at=b.span_at(pl))
+                    break
+                st.extend(y for y, _ in b.succ[x])
